@@ -1,6 +1,826 @@
-//! C34 — not implemented yet.
+//! C34 — Flight and HTTP return the same answer.
+//!
+//! A case = a table spec (written once as Parquet, registered by every node),
+//! a single node or a 2–3-node in-process cluster on ephemeral ports, a few
+//! statements (each with a distribution mode spelled independently for the two
+//! doors) and a few bad tickets/commands.
+//!
+//! Oracle per statement: `POST /sql?format=arrow&distributed=<m>` versus
+//! `GetFlightInfo(cmd)` → `DoGet(ticket)` on the same node while the node's
+//! membership view is frozen: same schema (names/types), same rows (sequence
+//! under a total ORDER BY, else multiset), Flight `metadata.distributed` =
+//! `x-qe-distributed`, trailer `rows` = rows streamed = `x-qe-rows` = rows in
+//! the HTTP body, the metadata rides on the LAST message only, no data message
+//! exceeds 4096 rows; a statement that fails must fail on both doors with
+//! corresponding status classes (and, for local execution, with the class the
+//! documented mapping assigns to the engine's own error variant).
+//! `GetSchema(cmd)` and `FlightInfo.schema` must describe the streamed batches.
+//! Bad tickets (malformed JSON, > 1 MiB, v != 1, unknown mode) ⇒
+//! `InvalidArgument` and the node's query counter does not move.
+#[path = "c34_util.rs"]
+mod util;
+
 use super::Property;
+use crate::data::{self, batches_to_rows, multiset_eq, rows_eq, TempDir};
+use crate::engine::block_on;
+use crate::runner::*;
+use proptest::prelude::*;
+use query_engine::distributed::ServerHandle;
+use query_engine::error::QueryError;
+use serde::{Deserialize, Serialize};
+use serde_json::Value as J;
+use util::*;
+
+const MIB: usize = 1024 * 1024;
+
+#[derive(Clone, Copy, Debug, Serialize, Deserialize, PartialEq, Eq)]
+pub enum Mode {
+    Auto,
+    Force,
+    Off,
+}
+
+/// How the statement travels in the GetFlightInfo command descriptor.
+#[derive(Clone, Debug, Serialize, Deserialize, PartialEq)]
+pub enum FlightCmd {
+    /// raw SQL bytes (mode auto)
+    Raw,
+    /// `{"sql": ..}` without a mode field (mode auto)
+    Json,
+    /// `{"sql": .., "mode": m}`
+    JsonMode(String),
+}
+
+#[derive(Clone, Debug, Serialize, Deserialize)]
+pub struct Stmt {
+    pub sql: String,
+    pub kind: String,
+    /// the statement's ORDER BY makes the row order total
+    pub total_order: bool,
+    pub mode: Mode,
+    /// `?distributed=<..>` on HTTP; None = parameter absent (auto)
+    pub http_mode: Option<String>,
+    pub flight_mode: FlightCmd,
+    /// DoGet (and the HTTP request) go to the node after the one that minted
+    /// the ticket: tickets are documented as self-contained
+    pub cross_node: bool,
+}
+
+#[derive(Clone, Debug, Serialize, Deserialize)]
+pub struct BadTicket {
+    /// text of the ticket/command; `@PAD@` is replaced by spaces so that the
+    /// whole is `pad_to` bytes long (when longer than the text itself)
+    pub body: String,
+    pub pad_to: usize,
+    /// false: DoGet ticket; true: GetFlightInfo command
+    pub as_command: bool,
+    pub why: String,
+}
+
+#[derive(Clone, Debug, Serialize, Deserialize)]
+pub struct C34Case {
+    pub nodes: u8,
+    pub entry: u8,
+    pub spec: TableSpec,
+    pub dim_rows: u8,
+    pub stmts: Vec<Stmt>,
+    pub tickets: Vec<BadTicket>,
+}
+
+// ---------------------------------------------------------------------------
+// generator
+// ---------------------------------------------------------------------------
+
+fn http_spelling(m: Mode, sel: u8) -> Option<String> {
+    let v: &[Option<&str>] = match m {
+        Mode::Auto => &[None, Some("auto")],
+        Mode::Force => &[Some("1"), Some("true"), Some("yes"), Some("force")],
+        Mode::Off => &[Some("0"), Some("false"), Some("no"), Some("local")],
+    };
+    v[sel as usize % v.len()].map(String::from)
+}
+fn flight_spelling(m: Mode, sel: u8) -> FlightCmd {
+    match m {
+        Mode::Auto => match sel % 3 {
+            0 => FlightCmd::Raw,
+            1 => FlightCmd::Json,
+            _ => FlightCmd::JsonMode("auto".into()),
+        },
+        Mode::Force => FlightCmd::JsonMode(["force", "1", "true", "yes"][sel as usize % 4].into()),
+        Mode::Off => FlightCmd::JsonMode(["off", "0", "false", "no", "local"][sel as usize % 5].into()),
+    }
+}
+
+/// (sql, kind, total_order). `a`,`b` are thresholds already scaled to the table.
+fn render(tpl: u8, a: usize, b: usize) -> (String, &'static str, bool) {
+    match tpl {
+        // ---- shapes plan_distributed accepts (scatter: concat / top-n / two-phase)
+        0 => (format!("SELECT id, k, v, s FROM t WHERE id < {a}"), "concat_filter", false),
+        1 => ("SELECT * FROM t".into(), "concat_star", false),
+        2 => (format!("SELECT id, k, v, s, dt FROM t WHERE id >= {a} ORDER BY id"), "sorted_all", true),
+        3 => (format!("SELECT id, s FROM t ORDER BY id DESC LIMIT {a} OFFSET {}", b % 7), "topn", true),
+        4 => ("SELECT k, COUNT(*) AS c, SUM(v) AS sv, MIN(id) AS lo, MAX(id) AS hi FROM t GROUP BY k".into(), "group_agg", false),
+        5 => (
+            format!("SELECT k, COUNT(*) AS c, SUM(v) AS sv, AVG(v) AS av, MAX(s) AS hs FROM t WHERE id < {a} GROUP BY k ORDER BY k"),
+            "group_agg_sorted",
+            true,
+        ),
+        6 => (
+            format!("SELECT COUNT(*) AS c, COUNT(v) AS cv, SUM(v) AS sv, AVG(v) AS av, MIN(s) AS ls, MAX(dt) AS hd FROM t WHERE id < {a}"),
+            "global_agg",
+            true,
+        ),
+        7 => (
+            format!("SELECT t.id, d.name FROM t JOIN d ON t.k = d.k WHERE t.id < {a} ORDER BY t.id"),
+            "join_dim_sorted",
+            true,
+        ),
+        // (the unaliased qualified key is the trigger of known finding
+        // `flight-schema-two-phase-unqualified-names`; kept rare)
+        8 if b % 5 == 0 => ("SELECT d.name, COUNT(*) AS c FROM t JOIN d ON t.k = d.k GROUP BY d.name".into(), "join_dim_agg_qualified", false),
+        8 => ("SELECT d.name AS dn, COUNT(*) AS c FROM t JOIN d ON t.k = d.k GROUP BY d.name".into(), "join_dim_agg", false),
+        9 => (format!("SELECT id, UPPER(s) AS u, v * 2 AS w FROM t WHERE k = {} AND id < {a}", b % 5), "concat_exprs", false),
+        // ---- zero rows
+        10 => ("SELECT id, s FROM t WHERE 1 = 0".into(), "empty_false", true),
+        11 => ("SELECT id, k, s FROM t WHERE id < 0 ORDER BY id".into(), "empty_sorted", true),
+        12 => ("SELECT k, COUNT(*) AS c FROM t WHERE id < 0 GROUP BY k".into(), "empty_group", true),
+        // ---- gather-only shapes
+        13 => ("SELECT DISTINCT k FROM t ORDER BY k".into(), "distinct_sorted", true),
+        14 => ("SELECT COUNT(DISTINCT k) AS n FROM t".into(), "count_distinct", true),
+        15 => (
+            format!("WITH x AS (SELECT id, k FROM t WHERE id < {a}) SELECT k, COUNT(*) AS c FROM x GROUP BY k"),
+            "cte_agg",
+            false,
+        ),
+        16 => (format!("SELECT id FROM t WHERE id < {a} UNION ALL SELECT k FROM d"), "union_all", false),
+        17 => (
+            format!("SELECT id, ROW_NUMBER() OVER (ORDER BY id) AS rn FROM t WHERE id < {a} ORDER BY id"),
+            "window_sorted",
+            true,
+        ),
+        18 => (
+            format!("SELECT x.id, y.id AS yid FROM t x JOIN t y ON x.id = y.id WHERE x.id < {a} ORDER BY x.id"),
+            "self_join_sorted",
+            true,
+        ),
+        19 => (format!("SELECT id, s FROM t WHERE k IN (SELECT k FROM d WHERE k < {}) ORDER BY id", b % 6), "in_subquery_sorted", true),
+        // ---- nothing to distribute
+        20 => ("SELECT 1 AS one".into(), "no_table", true),
+        // ---- errors, one per class
+        21 => (["SELEC 1", "SELECT FROM WHERE", "SELECT id FROM t WHERE", "SELECT (id FROM t"][a % 4].into(), "err_parse", true),
+        22 => ("SELECT * FROM nope".into(), "err_table", true),
+        23 => (format!("SELECT nope FROM t WHERE id < {a}"), "err_column", true),
+        24 => (
+            [
+                "SELECT SUM(s) AS x FROM t",
+                "SELECT id FROM t WHERE s",
+                "SELECT id + s AS x FROM t",
+                "SELECT id FROM t WHERE id LIKE 'a%'",
+                "SELECT id FROM t WHERE NOT s",
+                "SELECT id FROM t WHERE (id AND k)",
+            ][a % 6]
+                .into(),
+            "err_type",
+            true,
+        ),
+        27 => (
+            ["SELECT SUM(id) OVER w AS x FROM t", "SELECT id FROM t ORDER BY 9", "SELECT k, id FROM t GROUP BY k", "SELECT GROUPING(id) AS g FROM t"][a % 4].into(),
+            "err_bind",
+            true,
+        ),
+        25 => (
+            ["DROP TABLE t", "CREATE TABLE zz (a INT)", "INSERT INTO t VALUES (1)", "DELETE FROM t"][a % 4].into(),
+            "err_not_select",
+            true,
+        ),
+        26 => (["SELECT CAST(s AS BIGINT) AS x FROM t", "SELECT id / 0 AS x FROM t", "SELECT CAST('zz' AS DATE) AS x FROM t"][a % 3].into(), "err_runtime", false),
+        _ => ("SELECT id FROM t ORDER BY id".into(), "sorted_ids", true),
+    }
+}
+
+fn stmt_strategy(rows: usize) -> impl Strategy<Value = Stmt> {
+    let tpl = prop_oneof![
+        10 => 0u8..10,
+        2 => 10u8..13,
+        5 => 13u8..20,
+        1 => Just(20u8),
+        5 => 21u8..28,
+    ];
+    (tpl, any::<u16>(), any::<u16>(), prop_oneof![Just(Mode::Auto), Just(Mode::Force), Just(Mode::Off)], any::<u8>(), any::<u8>(), prop::bool::weighted(0.25))
+        .prop_map(move |(tpl, fa, fb, mode, s1, s2, cross_node)| {
+            // thresholds: most of the table (so big tables return >4096 rows), or anything
+            let a = if fa & 1 == 0 { rows + 1 - data::pick_idx(fa, rows / 8 + 1) } else { data::pick_idx(fa, rows + 2) };
+            let (sql, kind, total_order) = render(tpl, a, fb as usize);
+            Stmt {
+                sql,
+                kind: kind.to_string(),
+                total_order,
+                mode,
+                http_mode: http_spelling(mode, s1),
+                flight_mode: flight_spelling(mode, s2),
+                cross_node,
+            }
+        })
+}
+
+fn ticket_strategy() -> impl Strategy<Value = BadTicket> {
+    let ok_sql = "SELECT id FROM t WHERE id < 3";
+    let t = |body: String, pad_to: usize, as_command: bool, why: &str| BadTicket { body, pad_to, as_command, why: why.to_string() };
+    let over = prop_oneof![Just(MIB + 1), (MIB + 2..MIB + 5000), Just(MIB + MIB / 2), Just(2 * MIB + 17)];
+    prop_oneof![
+        // malformed
+        3 => prop_oneof![
+            Just("not json"), Just("{"), Just(""), Just("[1,2]"), Just("null"), Just("{\"v\":1}"),
+            Just("{\"v\":\"1\",\"sql\":\"SELECT id FROM t\"}"), Just("{\"v\":1,\"sql\":5}"),
+            Just("{\"v\":1,\"sql\":\"SELECT id FROM t\",\"mode\":7}"), Just("{\"v\":-1,\"sql\":\"SELECT id FROM t\"}"),
+            Just("{\"v\":1,\"sql\":\"SELECT id FROM t\""), Just("\u{feff}{\"v\":1,\"sql\":\"SELECT id FROM t\"}")
+        ].prop_map(move |b| t(b.to_string(), 0, false, "malformed")),
+        // version
+        3 => prop_oneof![Just(0u64), Just(2), Just(3), Just(10), Just(u32::MAX as u64), Just(u32::MAX as u64 + 2)]
+            .prop_map(move |v| t(format!("{{\"v\":{v},\"sql\":\"{ok_sql}\",\"mode\":\"auto\"}}"), 0, false, "version")),
+        // mode
+        3 => (prop_oneof![Just("maybe"), Just("AUTO"), Just(""), Just("2"), Just("on"), Just("auto "), Just("distributed"), Just("Force")], any::<bool>())
+            .prop_map(move |(m, c)| if c {
+                t(format!("{{\"sql\":\"{ok_sql}\",\"mode\":\"{m}\"}}"), 0, true, "mode")
+            } else {
+                t(format!("{{\"v\":1,\"sql\":\"{ok_sql}\",\"mode\":\"{m}\"}}"), 0, false, "mode")
+            }),
+        // oversized but otherwise perfectly valid (padding inside or after the JSON)
+        3 => (over.clone(), 0u8..3, any::<bool>()).prop_map(move |(n, w, c)| {
+            let body = match (c, w) {
+                (false, 0) => format!("{{\"v\":1,\"sql\":\"{ok_sql}@PAD@\",\"mode\":\"off\"}}"),
+                (false, 1) => format!("{{\"v\":1,\"sql\":\"{ok_sql}\",\"mode\":\"off\"}}@PAD@"),
+                (false, _) => format!("{{\"v\":1,@PAD@\"sql\":\"{ok_sql}\"}}"),
+                (true, 0) => format!("{{\"sql\":\"{ok_sql}@PAD@\",\"mode\":\"off\"}}"),
+                (true, 1) => format!("{ok_sql}@PAD@"),
+                (true, _) => format!("{{@PAD@\"sql\":\"{ok_sql}\"}}"),
+            };
+            t(body, n, c, "oversized")
+        }),
+        // malformed commands
+        1 => prop_oneof![Just("{"), Just("{\"sql\":5}"), Just("{\"mode\":\"auto\"}"), Just("{\"sql\":\"   \"}"), Just("   "), Just("{\"sql\":\"SELECT id FROM t\",}")]
+            .prop_map(move |b| t(b.to_string(), 0, true, "malformed")),
+    ]
+}
+
+fn case_strategy(tier: Tier) -> BoxedStrategy<C34Case> {
+    let big_hi = tier.pick(6000usize, 20000);
+    let wide_hi = tier.pick(20_000u32, 400_000);
+    let rows = prop_oneof![
+        1 => Just(0usize),
+        4 => 1usize..300,
+        4 => 4097usize..big_hi,
+    ];
+    let spec = (
+        rows,
+        1u32..8,
+        prop_oneof![Just(0u32), Just(3), Just(7)],
+        0u16..40,
+        prop_oneof![3 => Just((0u32, 0u32)), 2 => (40u32..3000, 1000u32..wide_hi)],
+        any::<u32>(),
+        prop_oneof![Just(64usize), Just(1000), Just(5000), Just(1 << 20)],
+        1u8..4,
+    )
+        .prop_map(|(rows, kmod, null_every, str_width, (wide_every, wide_len), salt, rg_size, files)| TableSpec {
+            rows,
+            kmod,
+            null_every,
+            str_width,
+            wide_every,
+            wide_len,
+            salt,
+            // tiny row groups over a big table only cost time
+            rg_size: if rows > 1000 { rg_size.max(1000) } else { rg_size },
+            files,
+            k_not_null: false,
+        });
+    (prop_oneof![2 => Just(1u8), 3 => Just(2u8), 4 => Just(3u8)], 0u8..3, spec, 0u8..7)
+        .prop_flat_map(|(nodes, entry, spec, dim_rows)| {
+            let rows = spec.rows;
+            (
+                Just(nodes),
+                Just(entry),
+                Just(spec),
+                Just(dim_rows),
+                proptest::collection::vec(stmt_strategy(rows), 1..6),
+                proptest::collection::vec(ticket_strategy(), 0..3),
+            )
+        })
+        .prop_map(|(nodes, entry, spec, dim_rows, stmts, tickets)| C34Case { nodes, entry, spec, dim_rows, stmts, tickets })
+        .boxed()
+}
+
+// ---------------------------------------------------------------------------
+// the check
+// ---------------------------------------------------------------------------
+
+#[derive(Default)]
+struct Report {
+    labels: Vec<String>,
+    nontrivial: bool,
+    known: Option<(String, String)>,
+}
+
+fn mode_name(m: Mode) -> &'static str {
+    match m {
+        Mode::Auto => "auto",
+        Mode::Force => "force",
+        Mode::Off => "off",
+    }
+}
+
+fn flight_cmd(s: &Stmt) -> Vec<u8> {
+    match &s.flight_mode {
+        FlightCmd::Raw => s.sql.as_bytes().to_vec(),
+        FlightCmd::Json => serde_json::json!({"sql": s.sql}).to_string().into_bytes(),
+        FlightCmd::JsonMode(m) => serde_json::json!({"sql": s.sql, "mode": m}).to_string().into_bytes(),
+    }
+}
+
+/// status classes of the two doors that correspond (server.rs `sql`, flight.rs
+/// `query_error_status` / `exec_error_status`)
+fn corresponds(http: u16, code: tonic::Code) -> bool {
+    use tonic::Code::*;
+    match http {
+        501 => code == Unimplemented,
+        503 => code == Unavailable,
+        500 => code == Internal,
+        400 => matches!(code, InvalidArgument | NotFound | Internal),
+        _ => false,
+    }
+}
+
+/// documented mapping of the engine's own error variant
+fn expected_classes(e: &QueryError) -> (u16, tonic::Code) {
+    use tonic::Code::*;
+    match e {
+        QueryError::Parse(_) | QueryError::Bind(_) | QueryError::Type(_) | QueryError::Plan(_) => (400, InvalidArgument),
+        QueryError::TableNotFound(_) | QueryError::ColumnNotFound(_) => (400, NotFound),
+        QueryError::NotImplemented(_) => (501, Unimplemented),
+        _ => (400, Internal),
+    }
+}
+
+fn variant_name(e: &QueryError) -> String {
+    let d = format!("{e:?}");
+    d.split(|c: char| !c.is_alphanumeric()).next().unwrap_or("?").to_string()
+}
+
+enum Stop {
+    Fail(String),
+    Discard(String),
+}
+
+fn queries_total(resp_body: &[u8]) -> Option<u64> {
+    serde_json::from_slice::<J>(resp_body).ok()?.get("node")?.get("queries_total")?.as_u64()
+}
+
+async fn run_case(c: &C34Case, rep: &mut Report) -> Result<(), Stop> {
+    let n = c.nodes.clamp(1, 3) as usize;
+    let tmp = TempDir::new("c34");
+    let t = gen_table("t", &c.spec);
+    let d = gen_dim("d", c.dim_rows as usize);
+    let dirs = vec![
+        ("t".to_string(), write_table(tmp.path(), &t, c.spec.rg_size, c.spec.files)),
+        ("d".to_string(), write_table(tmp.path(), &d, 1 << 20, 1)),
+    ];
+    let local = local_ctx(&dirs).map_err(|e| Stop::Discard(format!("local context: {e}")))?;
+
+    let mut handles: Vec<ServerHandle> = vec![];
+    for i in 0..n {
+        match spawn_node(i as u64, ok_loader(dirs.clone())).await {
+            Ok(h) => handles.push(h),
+            Err(e) => {
+                shutdown_all(handles).await;
+                return Err(Stop::Discard(format!("spawn: {e}")));
+            }
+        }
+    }
+    let r = drive(c, rep, &handles, &local).await;
+    shutdown_all(handles).await;
+    drop(tmp);
+    r
+}
+
+async fn drive(c: &C34Case, rep: &mut Report, handles: &[ServerHandle], local: &query_engine::ExecutionContext) -> Result<(), Stop> {
+    let n = handles.len();
+    let peers: Vec<String> = handles.iter().map(|h| h.address().to_string()).collect();
+    for h in handles {
+        h.set_peers(peers.clone());
+    }
+    let converged = wait_until(
+        || handles.iter().all(|h| h.state().tables_loaded() && h.state().membership.resolved() && up_count(&view(h)) == n && view(h).len() == n),
+        || {
+            for h in handles {
+                if up_count(&view(h)) != n {
+                    h.set_peers(peers.clone());
+                }
+            }
+        },
+        STATE_TIMEOUT,
+    )
+    .await;
+    if !converged {
+        return Err(Stop::Discard("cluster did not converge".into()));
+    }
+    rep.labels.push(format!("nodes:{n}"));
+
+    let mut clients = vec![];
+    for h in handles {
+        let Some(fa) = h.flight_addr() else {
+            return Err(Stop::Fail("node has no Flight endpoint although flight_bind was left at its default".into()));
+        };
+        clients.push(flight_client(fa).await.map_err(Stop::Discard)?);
+    }
+
+    let entry = (c.entry as usize).min(n - 1);
+    for s in &c.stmts {
+        let exec = if s.cross_node { (entry + 1) % n } else { entry };
+        check_stmt(s, rep, handles, &mut clients, entry, exec, local).await.map_err(|e| match e {
+            Stop::Fail(m) => Stop::Fail(format!(
+                "[{} nodes, mode {}, http {:?}, flight {:?}, info on node {entry}, DoGet+HTTP on node {exec}] `{}`\n{m}",
+                n,
+                mode_name(s.mode),
+                s.http_mode,
+                s.flight_mode,
+                s.sql
+            )),
+            d => d,
+        })?;
+    }
+    for b in &c.tickets {
+        check_ticket(b, rep, &handles[entry], &mut clients[entry]).await?;
+    }
+    Ok(())
+}
+
+async fn check_stmt(
+    s: &Stmt,
+    rep: &mut Report,
+    handles: &[ServerHandle],
+    clients: &mut [arrow_flight::client::FlightClient],
+    entry: usize,
+    exec: usize,
+    local: &query_engine::ExecutionContext,
+) -> Result<(), Stop> {
+    let n = handles.len();
+    rep.labels.push(format!("kind:{}", s.kind));
+    rep.labels.push(format!("mode:{}", mode_name(s.mode)));
+    let view_before = view(&handles[exec]);
+
+    // ---- HTTP door
+    let path = match &s.http_mode {
+        None => "/sql?format=arrow".to_string(),
+        Some(m) => format!("/sql?format=arrow&distributed={m}"),
+    };
+    let addr = handles[exec].local_addr().to_string();
+    let http = match http_post(&addr, &path, &s.sql).await {
+        Ok(r) => r,
+        Err(e) if is_timeout(&e) => return Err(Stop::Discard("http timeout".into())),
+        Err(e1) => match http_post(&addr, &path, &s.sql).await {
+            Ok(_) => return Err(Stop::Discard(format!("transient http transport error: {e1}"))),
+            Err(e2) if is_timeout(&e2) => return Err(Stop::Discard("http timeout".into())),
+            Err(e2) => return Err(Stop::Fail(format!("POST {path} gets no HTTP response at all (twice): {e1}; {e2}"))),
+        },
+    };
+
+    // ---- Flight door
+    let cmd = flight_cmd(s);
+    let flight = if entry == exec {
+        flight_query(&mut clients[entry], None, cmd.clone()).await
+    } else {
+        let (a, b) = if entry < exec {
+            let (l, r) = clients.split_at_mut(exec);
+            (&mut l[entry], &mut r[0])
+        } else {
+            let (l, r) = clients.split_at_mut(entry);
+            (&mut r[0], &mut l[exec])
+        };
+        flight_query(a, Some(b), cmd.clone()).await
+    };
+    let get_schema = flight_get_schema(&mut clients[entry], cmd.clone()).await;
+
+    if view(&handles[exec]) != view_before {
+        return Err(Stop::Discard("membership view changed while the statement ran".into()));
+    }
+
+    let http_ok = http.status == 200;
+    match flight {
+        FlightOutcome::Timeout => Err(Stop::Discard("flight timeout".into())),
+        FlightOutcome::Broken { stage, msg } => Err(Stop::Fail(format!(
+            "Flight {stage} reply is not a decodable Flight exchange: {msg}\n(HTTP answered {} {})",
+            http.status,
+            if http_ok { String::new() } else { error_text(&http) }
+        ))),
+        FlightOutcome::Status { stage, code, msg } => {
+            rep.labels.push(format!("flight_err:{code:?}@{stage}"));
+            if http_ok {
+                return Err(Stop::Fail(format!(
+                    "HTTP answers 200 ({} rows, x-qe-distributed={:?}) but Flight {stage} fails with {code:?}: {msg}",
+                    http.header("x-qe-rows").unwrap_or("?"),
+                    http.header("x-qe-distributed")
+                )));
+            }
+            rep.labels.push(format!("http_err:{}", http.status));
+            rep.labels.push(format!("err:{}:{}:{code:?}", s.kind, http.status));
+            if !corresponds(http.status, code) {
+                return Err(Stop::Fail(format!(
+                    "status classes do not correspond: HTTP {} ({}) vs Flight {code:?}@{stage} ({msg})",
+                    http.status,
+                    error_text(&http)
+                )));
+            }
+            // independent: the class the documented mapping gives the engine's own error
+            if s.mode == Mode::Off {
+                let planned = local.physical_plan(&s.sql).map(|_| ());
+                let err = match planned {
+                    Err(e) => Some(e),
+                    Ok(()) => local.sql(&s.sql).await.err(),
+                };
+                if let Some(e) = err {
+                    let (want_http, want_code) = expected_classes(&e);
+                    rep.labels.push(format!("engine_err:{}", variant_name(&e)));
+                    if http.status != want_http || code != want_code {
+                        return Err(Stop::Fail(format!(
+                            "the engine fails this statement with {} (`{e}`), which the documented mapping turns into HTTP {want_http} / Flight {want_code:?}; observed HTTP {} / Flight {code:?}@{stage}",
+                            variant_name(&e),
+                            http.status
+                        )));
+                    }
+                } else {
+                    rep.labels.push("both_fail_but_local_engine_succeeds".into());
+                }
+            }
+            Ok(())
+        }
+        FlightOutcome::Ok(ans) => {
+            if !http_ok {
+                let frows: usize = ans.batches.iter().map(|b| b.num_rows()).sum();
+                return Err(Stop::Fail(format!(
+                    "Flight streams an answer ({frows} rows, metadata {}) but HTTP fails with {} {}",
+                    ans.metas.first().map(|m| String::from_utf8_lossy(m).to_string()).unwrap_or_default(),
+                    http.status,
+                    error_text(&http)
+                )));
+            }
+            compare_ok(s, rep, n, &http, &ans, &get_schema)
+        }
+    }
+}
+
+fn compare_ok(s: &Stmt, rep: &mut Report, n: usize, http: &query_engine::distributed::HttpResponse, ans: &FlightAnswer, get_schema: &SchemaOutcome) -> Result<(), Stop> {
+    let fail = |m: String| Err(Stop::Fail(m));
+    // --- HTTP body
+    let (hschema, hbatches) = match decode_ipc(&http.body) {
+        Ok(x) => x,
+        Err(e) => return fail(format!("HTTP 200 body is not an Arrow IPC stream: {e}")),
+    };
+    let hrows = batches_to_rows(&hbatches);
+    let frows = batches_to_rows(&ans.batches);
+
+    // --- message sequence of DoGet
+    let Some(fschema) = ans.stream_schema.clone() else {
+        return fail("DoGet stream carries no schema message".into());
+    };
+    if ans.msgs.first().map(|m| m.kind) != Some("schema") {
+        return fail(format!("DoGet stream does not start with the schema: {:?}", ans.msgs.iter().take(4).collect::<Vec<_>>()));
+    }
+    let metas_at: Vec<usize> = ans.msgs.iter().enumerate().filter(|(_, m)| m.has_meta).map(|(i, _)| i).collect();
+    if metas_at.len() != 1 || metas_at[0] != ans.msgs.len() - 1 {
+        return fail(format!(
+            "execution metadata must ride on the trailing message only; stream has {} messages, metadata on message(s) {:?}",
+            ans.msgs.len(),
+            metas_at
+        ));
+    }
+    if let Some(big) = ans.msgs.iter().find(|m| m.rows > 4096) {
+        return fail(format!("a DoGet data message carries {} rows (> 4096, the documented re-slicing bound)", big.rows));
+    }
+    let meta: J = match serde_json::from_slice(&ans.metas[0]) {
+        Ok(j) => j,
+        Err(e) => return fail(format!("trailer metadata is not JSON: {e}")),
+    };
+
+    // --- schema
+    let hs = schema_sig(&hschema);
+    let fs = schema_sig(&fschema);
+    if hs != fs {
+        return fail(format!("schemas differ: HTTP [{}] vs Flight [{}]", fmt_sig(&hs), fmt_sig(&fs)));
+    }
+
+    // --- rows
+    let same = if s.total_order { rows_eq(&hrows, &frows, 0.0) } else { multiset_eq(&hrows, &frows, 0.0) };
+    if !same {
+        return fail(format!(
+            "rows differ ({}): HTTP {} rows, Flight {} rows\nHTTP:\n{}Flight:\n{}",
+            if s.total_order { "as sequences" } else { "as multisets" },
+            hrows.len(),
+            frows.len(),
+            data::fmt_rows(&hrows, 8),
+            data::fmt_rows(&frows, 8)
+        ));
+    }
+
+    // --- counts
+    let xrows = http.header("x-qe-rows").and_then(|v| v.parse::<usize>().ok());
+    let mrows = meta.get("rows").and_then(|v| v.as_u64()).map(|v| v as usize);
+    if xrows != Some(hrows.len()) {
+        return fail(format!("x-qe-rows = {:?} but the HTTP body holds {} rows", http.header("x-qe-rows"), hrows.len()));
+    }
+    if mrows != Some(frows.len()) {
+        return fail(format!("trailer rows = {:?} but the stream held {} rows", meta.get("rows"), frows.len()));
+    }
+
+    // --- decision
+    let hdist = match http.header("x-qe-distributed") {
+        Some("true") => true,
+        Some("false") => false,
+        other => return fail(format!("x-qe-distributed header is {other:?}")),
+    };
+    let Some(fdist) = meta.get("distributed").and_then(|v| v.as_bool()) else {
+        return fail(format!("trailer has no boolean `distributed`: {meta}"));
+    };
+    if hdist != fdist {
+        return fail(format!(
+            "distribution decisions differ: x-qe-distributed={hdist} (skipped: {:?}) vs Flight distributed={fdist} (skipped_reason: {:?})",
+            http.header("x-qe-distributed-skipped"),
+            meta.get("skipped_reason")
+        ));
+    }
+    rep.labels.push(format!("distributed:{hdist}"));
+    if hdist {
+        if let Some(shape) = http
+            .header("x-qe-distribution")
+            .and_then(|d| serde_json::from_str::<J>(d).ok())
+            .and_then(|d| d.get("shape").and_then(|s| s.as_str()).map(String::from))
+        {
+            rep.labels.push(format!("shape:{shape}"));
+        }
+    }
+    let big = hrows.len() > 4096;
+    if big {
+        rep.labels.push("rows>4096".into());
+    }
+    if hrows.is_empty() {
+        rep.labels.push("rows=0".into());
+    }
+    if big || hdist {
+        rep.nontrivial = true;
+    }
+    let _ = n;
+
+    // --- reported schemas describe the streamed batches (the Flight part of C30)
+    if let Some(b) = ans.batches.first() {
+        let bs = schema_sig(&b.schema());
+        let shape = meta.get("distribution").and_then(|d| d.get("shape")).and_then(|s| s.as_str()).map(String::from);
+        let mut reported = vec![];
+        match &ans.info_schema {
+            Ok(is) => reported.push(("FlightInfo.schema", schema_sig(is))),
+            Err(e) => return fail(format!("FlightInfo.schema does not decode: {e}")),
+        }
+        match get_schema {
+            SchemaOutcome::Ok(gs) => reported.push(("GetSchema", schema_sig(gs))),
+            SchemaOutcome::Timeout => return Err(Stop::Discard("flight timeout".into())),
+            SchemaOutcome::Status(code, msg) => return fail(format!("GetSchema fails with {code:?} ({msg}) for a statement that GetFlightInfo planned and DoGet answered")),
+            SchemaOutcome::Broken(m) => return fail(format!("GetSchema reply does not decode: {m}")),
+        }
+        for (what, rs) in reported {
+            if rs == bs {
+                continue;
+            }
+            let msg = format!("{what} [{}] does not describe the streamed batches [{}]", fmt_sig(&rs), fmt_sig(&bs));
+            match classify_schema(s, hdist, shape.as_deref(), &rs, &bs) {
+                Some(id) => {
+                    rep.labels.push(format!("known:{id}"));
+                    rep.known.get_or_insert((id.to_string(), format!("`{}` — {msg}", s.sql)));
+                    return Ok(());
+                }
+                None => return fail(msg),
+            }
+        }
+        rep.labels.push("schema_checked".into());
+    }
+    Ok(())
+}
+
+/// Signatures of the open findings about the reported schema.
+fn classify_schema(
+    s: &Stmt,
+    distributed: bool,
+    shape: Option<&str>,
+    reported: &[(String, arrow::datatypes::DataType)],
+    batches: &[(String, arrow::datatypes::DataType)],
+) -> Option<&'static str> {
+    if reported.len() != batches.len() || reported.iter().zip(batches).any(|(r, b)| r.1 != b.1) {
+        return None;
+    }
+    // distributed two-phase merge labels an unaliased qualified output column
+    // `rel.col` with the bare `col`, the plan (and the local answer) say `rel.col`
+    if distributed
+        && shape == Some("two_phase")
+        && reported.iter().zip(batches).all(|(r, b)| r.0 == b.0 || r.0.ends_with(&format!(".{}", b.0)))
+    {
+        return Some("flight-schema-two-phase-unqualified-names");
+    }
+    // local UNION ALL: a batch produced by a later branch keeps that branch's
+    // column names instead of the union's (= first branch's) names
+    if !distributed && s.sql.contains(" UNION ALL ") {
+        return Some("flight-schema-union-all-branch-names");
+    }
+    None
+}
+
+async fn check_ticket(b: &BadTicket, rep: &mut Report, node: &ServerHandle, client: &mut arrow_flight::client::FlightClient) -> Result<(), Stop> {
+    let mut bytes = b.body.clone();
+    let pad = (b.pad_to + "@PAD@".len()).saturating_sub(bytes.len());
+    bytes = bytes.replace("@PAD@", &" ".repeat(if b.body.contains("@PAD@") { pad } else { 0 }));
+    let bytes = bytes.into_bytes();
+    rep.labels.push(format!("ticket:{}:{}", b.why, if b.as_command { "command" } else { "doget" }));
+    let addr = node.local_addr().to_string();
+    let before = http_get(&addr, "/cluster").await.ok().and_then(|r| queries_total(&r.body));
+    let out = if b.as_command {
+        flight_query(client, None, bytes.clone()).await
+    } else {
+        flight_do_get(client, bytes.clone(), Err("n/a".into())).await
+    };
+    let after = http_get(&addr, "/cluster").await.ok().and_then(|r| queries_total(&r.body));
+    let what = format!(
+        "{} ({} bytes, {}) `{}`",
+        if b.as_command { "GetFlightInfo command" } else { "DoGet ticket" },
+        bytes.len(),
+        b.why,
+        String::from_utf8_lossy(&bytes[..bytes.len().min(120)])
+    );
+    match out {
+        FlightOutcome::Timeout => return Err(Stop::Discard("flight timeout".into())),
+        FlightOutcome::Ok(ans) => {
+            return Err(Stop::Fail(format!(
+                "{what} was accepted and answered ({} rows) instead of being refused",
+                ans.batches.iter().map(|b| b.num_rows()).sum::<usize>()
+            )))
+        }
+        FlightOutcome::Broken { stage, msg } => return Err(Stop::Fail(format!("{what}: {stage} reply undecodable: {msg}"))),
+        FlightOutcome::Status { stage, code, msg } => {
+            if code != tonic::Code::InvalidArgument {
+                return Err(Stop::Fail(format!("{what} must be refused with InvalidArgument; got {code:?}@{stage}: {msg}")));
+            }
+        }
+    }
+    match (before, after) {
+        (Some(x), Some(y)) if x != y => Err(Stop::Fail(format!("{what} was refused but the node's query counter moved {x} -> {y}: it was executed"))),
+        _ => Ok(()),
+    }
+}
+
+pub struct FlightVsHttp;
+impl Check for FlightVsHttp {
+    type Case = C34Case;
+    fn name(&self) -> &'static str {
+        "flight_vs_http"
+    }
+    fn rule(&self) -> &'static str {
+        "some statement of the case returned >4096 rows through both doors, or was answered distributed (x-qe-distributed: true)"
+    }
+    fn cases(&self, tier: Tier) -> u32 {
+        tier.pick(220, 5000)
+    }
+    fn workers(&self, _tier: Tier) -> usize {
+        4
+    }
+    fn max_shrink_iters(&self) -> u32 {
+        120
+    }
+    fn strategy(&self, tier: Tier) -> BoxedStrategy<C34Case> {
+        case_strategy(tier)
+    }
+    fn test(&self, c: &C34Case, obs: &mut Obs) -> Verdict {
+        let mut rep = Report::default();
+        let r = block_on(run_case(c, &mut rep));
+        for l in rep.labels.drain(..) {
+            obs.label(l);
+        }
+        obs.nontrivial(rep.nontrivial);
+        match r {
+            Ok(()) => match rep.known {
+                Some((id, msg)) => Verdict::Known { id, msg },
+                None => Verdict::Pass,
+            },
+            Err(Stop::Discard(d)) => Verdict::Discard(d),
+            Err(Stop::Fail(m)) => Verdict::Fail(m),
+        }
+    }
+}
 
 pub fn property() -> Property {
-    Property { id: "C34", level: "exploration", assumptions: &[], checks: vec![] }
+    Property {
+        id: "C34",
+        level: "exploration",
+        assumptions: &[
+            "status classes correspond as the two doors document them: 501~Unimplemented, 503~Unavailable, 500~Internal, 400~{InvalidArgument, NotFound, Internal}",
+            "row order is compared as a sequence only under an ORDER BY over a unique key; otherwise as a multiset (two executions may legitimately order differently)",
+            "the Flight client runs without message-size limits, so a client-side limit never shows as a disagreement",
+            "membership is frozen (one probe round, then an hour-long discovery interval) and re-read after every statement; a change discards the case",
+        ],
+        checks: vec![Box::new(FlightVsHttp)],
+    }
 }
